@@ -25,6 +25,7 @@ fn main() {
         eprintln!("usage: ebv <ID> quick|thorough | ebv <ID> --replay <file>");
         std::process::exit(2);
     }
+    ebv_core::allocstat::trace_from_env();
     install_quiet_panic_hook();
     let reg = registry();
     let Some(prop) = reg.iter().find(|p| p.id == args[1]) else {
